@@ -4,6 +4,7 @@ CONSTANTS
   Ufuncs <- AllUfuncs
   Methods <- AllMethods
   DKinds <- Q_DKinds
+  OutRK <- MC_OutRK
   AsDtypes <- Q_AsDtypes
   MaxDepth = 1
   FreeDepth = 1
@@ -19,5 +20,6 @@ INVARIANT Refusals
 INVARIANT InputsUnchanged
 INVARIANT DtypeContract
 INVARIANT AsArrayIsData
+INVARIANT ErrorsAsOnArrays
 INVARIANT ResolutionAgrees
 CHECK_DEADLOCK FALSE
